@@ -77,6 +77,10 @@ def make_basis(spec, d):
         if how == 'permute':
             perm = np.concatenate(([0], 1 + r.permutation(n - 1)))
             return parent[perm]
+        if how == 'subset':
+            # an incomplete basis cut out of a complete one (whose flags are already evaluated)
+            k = int(r.integers(1, n))
+            return parent[np.sort(r.choice(n, k, replace=False))]
         if how == 'conj':
             return parent.conj()
         if how == 'transpose':
@@ -252,6 +256,11 @@ def touch(p, rng, omega, kinds=('phases', 'cache_phases', 'ff1', 'ff2', 'cm')):
             p.get_filter_function(omega, order=2)
         elif k == 'cm':
             p.get_control_matrix(omega, cache_intermediates=bool(rng.integers(0, 2)))
+        elif k == 'cache_ff2':
+            # explicit cacher of the second-order filter function (computes from the intermediates)
+            p.cache_filter_function(omega, order=2)
+        elif k == 'cache_ff1':
+            p.cache_filter_function(omega, which=str(rng.choice(['fidelity', 'generalized'])))
     except Exception:   # noqa
         pass
     return p
